@@ -1,7 +1,7 @@
 (* C14 -- Commit-log parsing preserves every commit and every file change.
    Only statements live here; every proof is [exact <lemma of Proofs/GitLogProofs.v>]. *)
 From Coq Require Import String List Bool Arith.
-From Coca Require Import Lib.GoMap Lib.Str Model.GitSummary Model.GitLogParse Model.GitLogSpec Proofs.GitLogProofs.
+From Coca Require Import Lib.GoMap Lib.Str Model.GitSummary Model.GitLogParse Model.GitLogSpec Proofs.GitLogProofs Proofs.GitLogTextProofs.
 Import ListNotations.
 Open Scope string_scope.
 
@@ -60,3 +60,42 @@ Example C14_example_parse :
              [mkChange 0 0 "bin.dat" "create"; mkChange 1 0 "a.txt => d/a.txt" ""] ].
 Proof. exact ex_blocks_parse. Qed.
 Print Assumptions C14_example_parse.
+
+(* ------------------------------------------------------------------ at the level of the printed TEXT *)
+(* 6. every line git prints is taken for what it is: a header "[hash] author date subject" (hash of 5-12 hex
+      digits, an author without digits -- so that no date can begin inside it --, any subject, even one holding
+      another date or a bracketed hash), a numstat row "added TAB deleted TAB path" (a path with blanks, brackets,
+      digits ...: anything without a line end that does not begin with white space), a summary line
+      " create mode 100644 path" *)
+Theorem C14_header_line : forall h a d m,
+    hash_ok h = true -> author_ok a = true -> is_date d = true -> no_nl m = true ->
+    classify (render_header h a d m) = LHeader h a d m.
+Proof. exact classify_header. Qed.
+Print Assumptions C14_header_line.
+
+Theorem C14_numstat_line : forall a d f,
+    path_ok f = true -> classify (render_change a d f) = LChange a d f.
+Proof. exact classify_change. Qed.
+Print Assumptions C14_numstat_line.
+
+Theorem C14_summary_line : forall perm mode key,
+    perm_ok perm = true -> mode_word_ok mode = true -> no_nl key = true ->
+    classify (render_mode perm mode key) = LMode mode key.
+Proof. exact classify_mode. Qed.
+Print Assumptions C14_summary_line.
+
+(* 7. THE STATEMENT ON TEXT: for every well-formed history -- any number of entries, any number of file changes
+      per entry, entries without changes in between -- the text `git log --numstat --summary` prints for it is read
+      back as exactly one commit per entry that has file changes, with its hash, author, date and subject and every
+      file change with its line counts and its mode, in order; nothing is lost and nothing is invented *)
+Theorem C14_text_roundtrip : forall perm bs,
+    perm_ok perm = true -> Forall WFblock bs -> forallb text_ok bs = true ->
+    build_message_by_input (render_log perm bs) = expected_commits bs.
+Proof. exact log_text_roundtrip. Qed.
+Print Assumptions C14_text_roundtrip.
+
+Example C14_text_example :
+  forallb text_ok ex_text_blocks = true /\ forallb wf_block_b ex_text_blocks = true /\
+  List.length (build_message_by_input (render_log "644" ex_text_blocks)) = 2.
+Proof. exact ex_text_blocks_ok. Qed.
+Print Assumptions C14_text_example.
